@@ -358,6 +358,9 @@ afterPublish:
 			if fc != nil && len(fc.Modifies) > 0 {
 				e.havocHeapOnly(st, fc.Modifies)
 			} else {
+				if os.Getenv("GOVC_DEBUG") != "" {
+					fmt.Fprintln(os.Stderr, "havoc", e.fn.Name(), name, e.posOf(in.Pos()))
+				}
 				e.havocHeap(st)
 			}
 			if fc != nil && len(fc.Modifies) > 0 && onlyElemsOrMaps(fc.Modifies) {
